@@ -362,7 +362,7 @@ impl Module for M {
                 emit(format!("rrect.confine {} {} {}", w, h, radii_toks(&r)));
             }
         }
-        if pid == "C06" {
+        if pid == "C06" || pid == "C01" {
             let cols: [(&str, &str); 4] = [("7", "-"), ("-", "9"), ("7", "9"), ("-", "-")];
             let boxes: [(i32, i32, u32, u32); 2] = [UNB, (2, 1, 5, 4)];
             let sets: [[(u32, u32); 4]; 6] = [
